@@ -322,7 +322,7 @@ def _sample_worker(job):
         for k, d in check_case(case):
             s.fail(k, case, d)
 
-    H.hyp_run(strat, body, n, seed)
+    H.hyp_run(strat, body, n, seed, stats=s)
     return s
 
 
